@@ -340,10 +340,15 @@ hwloc__xml_import_object_attr(struct hwloc_topology *topology,
 	if (hwloc__xml_verbose())
 	  fprintf(stderr, "%s: ignoring invalid bridge_type format string %s\n",
 		  state->global->msgprefix, value);
+      } else if ((upstream_type != HWLOC_OBJ_BRIDGE_HOST && upstream_type != HWLOC_OBJ_BRIDGE_PCI)
+		 || downstream_type != HWLOC_OBJ_BRIDGE_PCI) {
+	/* host is only possible upstream */
+	if (hwloc__xml_verbose())
+	  fprintf(stderr, "%s: ignoring invalid bridge_type values %s\n",
+		  state->global->msgprefix, value);
       } else {
 	obj->attr->bridge.upstream_type = (hwloc_obj_bridge_type_t) upstream_type;
 	obj->attr->bridge.downstream_type = (hwloc_obj_bridge_type_t) downstream_type;
-        /* FIXME verify that upstream/downstream type is valid */
       };
       break;
     }
@@ -860,6 +865,15 @@ hwloc__xml_import_object(hwloc_topology_t topology,
     if (hwloc__xml_verbose())
       fprintf(stderr, "%s: invalid cache type %s with attribute depth %u and type %d\n",
 	      state->global->msgprefix, hwloc_obj_type_string(obj->type), obj->attr->cache.depth, (int) obj->attr->cache.type);
+    goto error_with_object;
+  }
+
+  /* check that bridges got a valid bridge_type, the downstream side is always PCI */
+  if (obj->type == HWLOC_OBJ_BRIDGE
+      && obj->attr->bridge.downstream_type != HWLOC_OBJ_BRIDGE_PCI) {
+    if (hwloc__xml_verbose())
+      fprintf(stderr, "%s: invalid bridge without valid bridge_type attribute\n",
+	      state->global->msgprefix);
     goto error_with_object;
   }
 
